@@ -149,3 +149,38 @@ Lemma m_order_outside_domain : in_dag_domain m_order = false.
 Proof. vm_compute. reflexivity. Qed.
 Lemma m_empty_outside_domain : in_dag_domain m_empty = false.
 Proof. vm_compute. reflexivity. Qed.
+
+(* ---- acceptance (C05) with the hypotheses discharged by evaluation ---- *)
+Lemma rank_fn_bound l n x : forallb (fun p : str * nat => (snd p <=? n)%nat) l = true -> (rank_fn l x <= n)%nat.
+Proof.
+  intros H. unfold rank_fn. destruct (assoc x l) as [v|] eqn:E; [|lia].
+  rewrite forallb_forall in H. specialize (H (x, v) (assoc_in _ _ _ E)). apply Nat.leb_le in H. exact H.
+Qed.
+
+Theorem checked_dag_accepts g order :
+  dag_check g = true -> fuel_check g = true ->
+  (is_ok (assign_weights order g) = true <-> forallb (spec_accepts g) order = true).
+Proof.
+  unfold dag_check. intros H Hf. apply andb_prop in H. destruct H as [H H3]. apply andb_prop in H. destruct H as [H1 H2].
+  assert (Hiff := dag_accepts_iff g (rank_fn (heights g)) order (check_ranked_sound _ _ H1) (check_terminals_sound _ H2)
+                                  (check_unweighted_sound _ H3)).
+  assert (Hfuel : forall x, In x order -> (2 * rank_fn (heights g) x + 1 <= 2 * length (g_nodes g) + 2)%nat).
+  { intros x _. pose proof (rank_fn_bound (heights g) (length (g_nodes g)) x Hf). lia. }
+  specialize (Hiff Hfuel). rewrite forallb_forall. split.
+  - intros Hok. destruct (assign_weights order g) as [g'| |] eqn:E; try discriminate.
+    intros x Hx. unfold spec_accepts. destruct (proj1 Hiff (ex_intro _ g' eq_refl) x Hx) as [Ht|Ha]; [rewrite Ht; reflexivity|].
+    unfold acc in Ha. rewrite Ha. apply orb_true_r.
+  - intros Hall. destruct (proj2 Hiff) as [g' ->]; [|reflexivity].
+    intros x Hx. specialize (Hall x Hx). unfold spec_accepts in Hall. apply orb_prop in Hall. destruct Hall as [Ht|Ha]; [left; exact Ht|right; exact Ha].
+Qed.
+
+Theorem acyclic_model_accepts m g o :
+  wbuild m = Ok g -> dag_check g = true -> fuel_check g = true ->
+  (is_ok (build_weighted o m) = true <-> forallb (spec_accepts g) (order_used o g) = true).
+Proof.
+  intros Hb Hc Hf. unfold build_weighted. rewrite Hb. cbn [obind]. apply checked_dag_accepts; assumption.
+Qed.
+
+Lemma m_good_accepted_by_spec :
+  match wbuild m_good with Ok g => fuel_check g && forallb (spec_accepts g) (default_order g) | _ => false end = true.
+Proof. vm_compute. reflexivity. Qed.
